@@ -1,3 +1,4 @@
+import ModbusProofs.Properties.C09
 import ModbusProofs.Lemmas.Assembler
 import ModbusProofs.Properties.C18
 /-
@@ -248,5 +249,55 @@ theorem any_two_segmentations_agree (h : Handler) (fs : List Bytes) (p : Bytes) 
     (h₁ : cs₁.flatten = fs.flatten ++ p) (h₂ : cs₂.flatten = fs.flatten ++ p) :
     runReads h cs₁ [] [] = runReads h cs₂ [] [] := by
   rw [answered_once_in_order h fs p cs₁ hd hp hr h₁, answered_once_in_order h fs p cs₂ hd hp hr h₂]
+
+/-- one exchange of a pipelined conversation: transaction id, constructor arguments, the request built from them, and
+the response the handler gives -/
+structure Exch where
+  tid : UInt16
+  a : NewArgs
+  r : Req
+  resp : Resp
+
+/-- the request is a legal one built by the library (outside the FC1/FC2 parser finding), with a supported function
+code, and the handler answers it with `resp` -/
+def Exch.Good (h : Handler) (x : Exch) : Prop :=
+  C01.WF x.a ∧ newReq x.a = .ok x.r ∧ Spec.legal x.a = true ∧ Driver.kfC09 x.a = none ∧
+  (3 ≤ x.r.pdu.length ∧ x.r.pdu.length < 65536) ∧ supportedFunctionCodes.contains x.r.fc = true ∧
+  h x.tid x.r = .resp x.resp
+
+theorem frameReply_good (h : Handler) (x : Exch) (hx : x.Good h) :
+    Delimited (x.r.bytesTCP x.tid) ∧ frameReply h (x.r.bytesTCP x.tid) = some (x.resp.bytesTCP x.tid) := by
+  obtain ⟨hwf, hnew, hleg, hkf, hl, hfc, hh⟩ := hx
+  have hll := C18.C18_prefix_partial x.tid x.r hl hfc (x.r.bytesTCP x.tid).length (by
+    have := (C18.enc_header x.tid x.r).2.2.2.2.2.2.2.2; omega) []
+  have hll' : looksLike ⟨x.r.bytesTCP x.tid, []⟩ false = .ok ((x.r.bytesTCP x.tid).length, none) := by
+    simpa using hll
+  refine ⟨⟨none, hll', by simp, by simp⟩, ?_⟩
+  have hrt := (C09.C09_roundtrip_partial x.tid x.a x.r hwf hnew hleg hkf).2.1 []
+  unfold frameReply
+  rw [hll']
+  simp only [handleFrame, hrt, hh]
+
+/-- **pipelined requests, any segmentation**: any number of legal library-built requests written back to back, cut
+into TCP reads in any way, possibly followed by a pending rest `p`: the server writes exactly the handler's responses,
+each under its request's transaction id, in request order, and keeps `p` -/
+theorem pipelined_requests_served (h : Handler) (xs : List Exch) (hx : ∀ x ∈ xs, x.Good h) (p : Bytes) (hp : Pending p)
+    (cs : List Bytes) (hcs : cs.flatten = (xs.map fun x => x.r.bytesTCP x.tid).flatten ++ p) :
+    runReads h cs [] [] = some ((xs.map fun x => x.resp.bytesTCP x.tid).flatten, p) := by
+  have := answered_once_in_order h (xs.map fun x => x.r.bytesTCP x.tid) p cs
+    (by intro f hf; obtain ⟨x, hxm, rfl⟩ := List.mem_map.1 hf; exact (frameReply_good h x (hx x hxm)).1)
+    hp
+    (by intro f hf; obtain ⟨x, hxm, rfl⟩ := List.mem_map.1 hf; rw [(frameReply_good h x (hx x hxm)).2]; rfl)
+    hcs
+  rw [this]
+  congr 3
+  rw [List.map_map]
+  apply List.map_congr_left
+  intro x hxm
+  simp [(frameReply_good h x (hx x hxm)).2]
+
+/-- non-vacuity: a read of one holding register, answered by a constant handler -/
+example : (Exch.mk 7 { fc := 3, qty := 1 } (.read 3 0 0 1) (.regs 3 0 2 [0, 0])).Good (fun _ _ => .resp (.regs 3 0 2 [0, 0])) :=
+  ⟨by decide, by decide, by decide, by decide, by decide, by decide, rfl⟩
 
 end Modbus.Properties.C15
